@@ -77,8 +77,6 @@ class QuicSession:
         self.set_packet_number_spaces()
         self.portmap = portmap
 
-        self.init_keys_done = False
-
     # reset Quic Session Parameters, except output buffer and Socket Addresses
     def reset(self):
         self.client_cids = []
@@ -255,9 +253,6 @@ class QuicSession:
 
         if "Initial" not in list(self.decryptors.keys()):
             self.set_initial_decryptor(dcid, False)
-        elif self.tls_session.ciphersuite == b"\x13\x03" and not self.init_keys_done:
-            self.set_initial_decryptor(dcid, True)
-            self.init_keys_done = True
 
         isserver = self.packet_isserver(packet, dcid)
 
